@@ -197,6 +197,7 @@ def run(ctx):
         seqs.append((q, tuple(ctx.rng.choice(alpha) for _ in range(5 + ctx.rng.below(5)))))
     texts = ["".join(t for t, _ in s).encode() for _, s in seqs]
     icases = ["%s %s" % (q, tx.hex()) for (q, _), tx in zip(seqs, texts)]
+    ctx.log("phase: split K-diff")
     rc1, out1 = ctx.run([impl, "split"], input="\n".join(icases) + "\n")
     rc2, out2 = ctx.run([model], input="\n".join("S " + c for c in icases) + "\n")
     if rc1 != 0 or rc2 != 0:
@@ -244,15 +245,18 @@ def run(ctx):
     for i in range(ctx.n(150, 3000)):
         vcases.append(gen_value_case(ctx.rng, "d" if i % 4 else "r"))
     json.dump(vcases, open(os.path.join(d, "cases.json"), "w"))
+    ctx.log("phase: gen: value program")
     rc, out = ctx.run([impl, "gen", "-dir", d, "-cases", os.path.join(d, "cases.json")], cwd=d, timeout=300)
     if rc != 0:
         ctx.broken("correspondence(c05: compile the value program with the real compiler)", out[-1500:])
         return
     status = json.load(open(os.path.join(d, "status.json")))["status"]
+    ctx.log("phase: go build")
     rc, out = ctx.run("go build -o prog . 2>&1", cwd=d, timeout=300)
     if rc != 0:
         ctx.broken("correspondence(c05: go build of the compiled value program)", out[-1500:])
         return
+    ctx.log("phase: run + model")
     rc, out = ctx.run([os.path.join(d, "prog")], timeout=120)
     if rc != 0:
         ctx.broken("correspondence(c05: run of the value program)", "rc=%d %s" % (rc, out[-800:]))
